@@ -66,6 +66,10 @@ var c20Templates = []string{
 	"{% for i in l %}{{ i }}{% continue %}never{% endfor %}",
 	"{% for i in l %}{% tablerow j in l cols: 2 %}{{ j }}{% break %}{% endtablerow %}{% if i == 2 %}{% break %}{% endif %}{% endfor %}",
 	"{% tablerow i in l cols: 2 %}{% for j in l %}{% continue %}{% endfor %}{% continue %}{% endtablerow %}",
+	// values printed with several writes at several depths (arrays of arrays, maps of arrays)
+	"<pre>{{ table }}</pre>",
+	"{% for t in tagmap %}{{ t }}{% endfor %}|{{ table | first }}{{ table | last }}",
+	"{{ tagmap.q }}{{ table[1] }}{% for row in table %}{{ row }};{% endfor %}",
 	// work that would go on if rendering did not stop: 40 filter / tag executions, each followed by a write
 	"{% for i in (1..40) %}{{ i | cnt }},{% endfor %}end",
 	"{% for i in (1..40) %}{% cnttag %}{{ i }}{% endfor %}",
@@ -135,7 +139,9 @@ func c20Engine() *liquid.Engine {
 }
 
 func c20Bind() map[string]any {
-	return map[string]any{"x": "X", "y": nil, "l": []any{1, 2, 3}, "m": map[string]any{"k": "v"}, "bytes": []byte("by"), "u": "ü"}
+	return map[string]any{"x": "X", "y": nil, "l": []any{1, 2, 3}, "m": map[string]any{"k": "v"}, "bytes": []byte("by"), "u": "ü",
+		// values whose printing takes several writes at several depths
+		"table": []any{[]any{"a", "b", "c"}, []any{"d", []any{"e", "f"}}, []string{"g"}}, "tagmap": map[string]any{"p": []any{"t1", "t2"}, "q": [][]int{{1, 2}, {3}}}}
 }
 
 type recWriter struct {
@@ -350,7 +356,7 @@ func init() {
 	explore.Register(&explore.Prop{
 		ID:    "C20",
 		Level: "fault_enumeration",
-		Rule: "every subset of hyphen positions of 6 block skeletons (if, for, raw inside if, capture, unless/else, tablerow: ~1000 templates) and 46 templates (four that count the filter/tag executions after the failing write; eight with loops whose iterations end by break or continue; four of them with 100..600 writes or a 70 KB write) covering every tag (incl. tablerow, include, capture, nested loops, cycle, registered tag and block), trim-marker placements, empty output and long text; a fault-free render records the W Write calls and their sizes; then for EVERY k in 0..W-1 the writer fails on call k accepting 0 bytes or a strict prefix (all prefix lengths for calls <=8 bytes (quick) / <=64 (thorough), else 1, len/2, len-1), failing once or forever, through FRender and ParseAndFRender, returning a sentinel error - and, for the hand-written templates, io.ErrShortWrite, io.EOF, io.ErrClosedPipe and a wrapping error as well; plus short writes with a nil error (totality only); " +
+		Rule: "every subset of hyphen positions of 6 block skeletons (if, for, raw inside if, capture, unless/else, tablerow: ~1000 templates) and 49 templates (three printing arrays of arrays; four that count the filter/tag executions after the failing write; eight with loops whose iterations end by break or continue; four of them with 100..600 writes or a 70 KB write) covering every tag (incl. tablerow, include, capture, nested loops, cycle, registered tag and block), trim-marker placements, empty output and long text; a fault-free render records the W Write calls and their sizes; then for EVERY k in 0..W-1 the writer fails on call k accepting 0 bytes or a strict prefix (all prefix lengths for calls <=8 bytes (quick) / <=64 (thorough), else 1, len/2, len-1), failing once or forever, through FRender and ParseAndFRender, returning a sentinel error - and, for the hand-written templates, io.ErrShortWrite, io.EOF, io.ErrClosedPipe and a wrapping error as well; plus short writes with a nil error (totality only); " +
 			"class = (template, fault kind, partial accept); distinct_nontrivial counts distinct classes",
 		Assumptions: []string{"a writer that returns n < len(p) with a nil error violates io.Writer; only absence of a panic is required there"},
 		Setup:       func(tier string) { c20.eng = c20Engine(); c20Build(tier) },
